@@ -341,6 +341,12 @@ class SimQueue:
         if not self.items:
             if not block:
                 s.ev("DeqEmpty", nowait=True)
+                d = getattr(s, "stall_after_empty_us", 0)
+                if d and s.cur is not None and s.cur.name == "reader":
+                    # targeted delay: the thread that has just found the queue empty (connection_lost's drain) is
+                    # descheduled for a while before it goes on (legitimate: any thread can be preempted anywhere)
+                    s.ev("Stall", d=d)
+                    s.block(None, s.now + d)
                 raise _real_queue.Empty
             dl = None if timeout is None else s.now + usec(timeout)
             s.ev("GetWait", deadline=dl)
